@@ -275,17 +275,17 @@ func zzEqBudgetStatus(a, b map[uint8]BudgetStatus) bool {
 // zzProposalCopy: the fields of a proposal state the committee changes after
 // registration (the proposal itself is immutable)
 type zzProposalCopy struct {
-	status                     ProposalStatus
-	reject                     common.Fixed64
-	registerHeight, voteStart  uint32
-	withdrawn, withdrawable    map[uint8]common.Fixed64
-	budgets                    map[uint8]BudgetStatus
-	finalPayment               bool
-	trackingCount              uint8
-	terminatedHeight           uint32
-	owner                      []byte
-	recipient                  common.Uint168
-	votes                      map[common.Uint168]payload.VoteResult
+	status                    ProposalStatus
+	reject                    common.Fixed64
+	registerHeight, voteStart uint32
+	withdrawn, withdrawable   map[uint8]common.Fixed64
+	budgets                   map[uint8]BudgetStatus
+	finalPayment              bool
+	trackingCount             uint8
+	terminatedHeight          uint32
+	owner                     []byte
+	recipient                 common.Uint168
+	votes                     map[common.Uint168]payload.VoteResult
 }
 
 func zzCopyProposal(p *ProposalState) *zzProposalCopy {
